@@ -1,5 +1,8 @@
 import SuitVerif.Encode
 import SuitVerif.CborProofs
+import SuitVerif.RoundTrip
+import SuitVerif.ReadsBack
+import SuitVerif.ReadsKv
 import SuitVerif.Generated.Schema
 import SuitVerif.Generated.Guards
 /-! # C03 — parse then create reproduces the envelope (partial)
@@ -83,5 +86,234 @@ theorem C03_bstr (g : Guards) (b : Bytes) : leafFrom g .bstr (ensure (.bstr b)) 
 theorem C03_uuid (g : Guards) (b : Bytes) (h : b.length = 16) :
     leafFrom g .uuid (ensure (.bstr b)) = some (.ok (.leaf (.bstr b) .rawHex)) := by
   simp [leafFrom, ensure, h]
+
+/-! ### every scalar kind, from the general fact `deserialize_cbor(dumps(v)) = v` (`RoundTrip.deser_enc`) -/
+open SuitVerif.RoundTrip
+
+/-- `deserialize_cbor(cbor2.dumps(v)) = v` for every value of the modelled data model that cbor2 hands over unchanged (valid UTF-8, no repeated keys) -/
+theorem C03_deser_enc (v : Cbor) (hw : v.wf = true) (hn : norm v = some v) : deser (enc v) = .ok v := deser_enc v hw hn
+
+/-- `validate_cbor` never rejects what the encoder wrote -/
+theorem C03_validate_enc (v : Cbor) (hw : v.wf = true) : validate (enc v) = true := validate_enc v hw
+
+theorem ofInt_wf (z : Int) (h : -(2 ^ 64 : Int) ≤ z ∧ z < 2 ^ 64) : (Cbor.ofInt z).wf = true := by
+  unfold Cbor.ofInt
+  split
+  · simp only [Cbor.wf, decide_eq_true_eq]; omega
+  · simp only [Cbor.wf, decide_eq_true_eq]; omega
+
+theorem ofInt_norm (z : Int) : norm (Cbor.ofInt z) = some (Cbor.ofInt z) := by
+  unfold Cbor.ofInt; split <;> simp [norm]
+
+theorem intLike_ofInt (z : Int) : intLike (Cbor.ofInt z) = some z := by
+  unfold Cbor.ofInt
+  split
+  · simp only [intLike, Option.some.injEq]; omega
+  · simp only [intLike, Option.some.injEq]; omega
+
+theorem isNone_ofInt (z : Int) : isNone (Cbor.ofInt z) = false := by
+  unfold Cbor.ofInt; split <;> simp [isNone]
+
+/-- a signed-integer leaf (both major types, every head width) -/
+theorem C03_int (g : Guards) (z : Int) (h : -(2 ^ 64 : Int) ≤ z ∧ z < 2 ^ 64) :
+    leafFrom g .int (enc (Cbor.ofInt z)) = some (.ok (.leaf (Cbor.ofInt z) .plain)) := by
+  simp [leafFrom, deser_enc _ (ofInt_wf z h) (ofInt_norm z), intLike_ofInt, bind, Except.bind, pure, Except.pure]
+
+/-- an image-size leaf -/
+theorem C03_imageSize (g : Guards) (n : Nat) (h : n < 2 ^ 64) :
+    leafFrom g .imageSize (enc (.uint n)) = some (.ok (.leaf (.uint n) .rawInt)) := by
+  have hw : (Cbor.uint n).wf = true := by simpa [Cbor.wf] using h
+  simp [leafFrom, deser_enc _ hw (by simp [norm]), isNone, intLike, bind, Except.bind, pure, Except.pure]
+
+/-- a text leaf: every valid UTF-8 string -/
+theorem C03_tstr (g : Guards) (b : Bytes) (hl : b.length < 2 ^ 64) (hu : (strOf b).isSome = true) :
+    leafFrom g .tstr (enc (.tstr b)) = some (.ok (.leaf (.tstr b) .plain)) := by
+  have hw : (Cbor.tstr b).wf = true := by simpa [Cbor.wf] using hl
+  simp [leafFrom, deser_enc _ hw (by simp [norm, hu]), bind, Except.bind, pure, Except.pure]
+
+/-- booleans and null -/
+theorem C03_bool (g : Guards) (v : Bool) :
+    leafFrom g .bool (enc (Cbor.bool v)) = some (.ok (.leaf (Cbor.bool v) .plain)) := by
+  have hw : (Cbor.bool v).wf = true := by cases v <;> simp [Cbor.bool, Cbor.wf]
+  have hn : norm (Cbor.bool v) = some (Cbor.bool v) := by cases v <;> simp [Cbor.bool, norm]
+  have hb : isBool (Cbor.bool v) = true := by cases v <;> simp [Cbor.bool, isBool]
+  simp [leafFrom, deser_enc _ hw hn, hb, bind, Except.bind, pure, Except.pure]
+
+theorem C03_null (g : Guards) : leafFrom g .null (enc Cbor.null) = some (.ok (.leaf Cbor.null .plain)) := by
+  have hw : (Cbor.simple 22).wf = true := by simp [Cbor.wf]
+  have hd : deser (enc (Cbor.simple 22)) = .ok (.simple 22) := deser_enc _ hw (by simp [norm])
+  simp [leafFrom, Cbor.null, hd, isNone, bind, Except.bind, pure, Except.pure]
+
+/-- an enumeration leaf: in a table without repeated codes every entry's code is read back as that entry's name -/
+theorem C03_enum (g : Guards) (es : List (String × Int)) (e : String × Int)
+    (hf : es.find? (fun x => x.2 == e.2) = some e) (h : -(2 ^ 64 : Int) ≤ e.2 ∧ e.2 < 2 ^ 64) :
+    leafFrom g (.enum es) (enc (Cbor.ofInt e.2)) = some (.ok (.enumv e.1 e.2)) := by
+  simp [leafFrom, deser_enc _ (ofInt_wf e.2 h) (ofInt_norm e.2), intLike_ofInt, hf, bind, Except.bind, pure, Except.pure]
+
+/-- the premise of `C03_enum` for every enumeration of the schema extracted from the running code, every entry -/
+def enumTablesOk (s : Schema) : Bool :=
+  s.classes.all (fun c => match c.2 with
+    | .enum es => es.all (fun e => (es.find? (fun x => x.2 == e.2) == some e) && decide (-(2 ^ 64 : Int) ≤ e.2 ∧ e.2 < 2 ^ 64))
+    | _ => true)
+
+theorem C03_enum_tables : enumTablesOk Generated.schema = true := by decide +kernel
+
+/-- a one-letter component part -/
+theorem C03_bchar (g : Guards) (b : Bytes) (s : String) (hl : b.length = 1) (hs : strOf b = some s)
+    (ha : s.toList.all Char.isAlpha = true) : leafFrom g .bchar b = some (.ok (.bchar s)) := by
+  simp [leafFrom, hl, hs, ha]
+
+/-- what a parent hands to the child for a byte-string-wrapped member is the member's own encoding -/
+theorem ensure_wrapped (n : Node) : ensure (Node.toVal (.wrapped n)) = n.toBytes := by
+  simp [Node.toVal, ensure]
+
+/-- one step of the decoder at a byte-string-wrapped class: the child decodes the content -/
+theorem C03_cbstr_step (g : Guards) (s : Schema) (fuel : Nat) (c inner : Cls) (b : Bytes) (hty : s.ty c = some (.cbstr inner)) :
+    fromBytes g s (fuel + 1) c b = (fromBytes g s fuel inner b).map .wrapped := by
+  simp only [fromBytes, hty, leafFrom]
+  cases fromBytes g s fuel inner b <;> rfl
+
+/-- one step of the decoder at a tagged class: the registered tag is required and the child decodes the tagged item -/
+theorem C03_tag_step (g : Guards) (s : Schema) (fuel : Nat) (c child : Cls) (t : Nat) (name : String) (v : Cbor)
+    (hty : s.ty c = some (.tag t name child)) (hw : (Cbor.tag t v).wf = true) (hn : norm v = some v) :
+    fromBytes g s (fuel + 1) c (enc (.tag t v)) = (fromBytes g s fuel child (enc v)).map (.tagged t name) := by
+  have hd : deser (enc (.tag t v)) = .ok (.tag t v) := deser_enc _ hw (by simp [norm, hn])
+  simp only [fromBytes, hty, leafFrom, hd, bind, Except.bind, if_true]
+  cases fromBytes g s fuel child (enc v) <;> rfl
+
+/-! ### assembled from the steps of `ReadsBack.lean`: a whole digest, for every algorithm and every value
+
+`Reads g s c b n`: the decoder of class `c` builds exactly `n` from `b` (every sufficient budget).  The digest in the
+authentication wrapper is a byte-string-wrapped union whose first alternative is the positional pair
+[algorithm, bytes]; the lemma is stated for any schema with that chain, and `C03_digest_chain` finds the chain in the
+schema extracted from the running code (class numbers by unification, so a renumbering does not disturb it). -/
+open SuitVerif.ReadsBack
+
+theorem ensure_ofInt (z : Int) : ensure (Cbor.ofInt z) = enc (Cbor.ofInt z) := by
+  unfold Cbor.ofInt; split <;> simp [ensure]
+
+theorem C03_digest_reads (g : Guards) (s : Schema) (c cu ct ca cb : Cls) (post : List Cls) (k1 k2 : String)
+    (es : List (String × Int))
+    (h1 : s.ty c = some (.cbstr cu)) (h2 : s.ty cu = some (.union (ct :: post)))
+    (h3 : s.ty ct = some (.tupleNamed [(k1, ca), (k2, cb)])) (h4 : s.ty ca = some (.enum es)) (h5 : s.ty cb = some .hex)
+    (hk1 : k1.endsWith "*" = false) (hk2 : k2.endsWith "*" = false)
+    (e : String × Int) (hf : es.find? (fun x => x.2 == e.2) = some e) (hr : -(2 ^ 64 : Int) ≤ e.2 ∧ e.2 < 2 ^ 64)
+    (b : Bytes) (hb : b.length < 2 ^ 64) :
+    Reads g s c (enc (.arr [Cbor.ofInt e.2, .bstr b]))
+      (.wrapped (.alt 0 (s.name ct) (.tuple [k1, k2] [.enumv e.1 e.2, .leaf (.bstr b) .hex]))) := by
+  have hval : valList [Node.enumv e.1 e.2, Node.leaf (.bstr b) .hex] = [Cbor.ofInt e.2, .bstr b] := by
+    simp [valList, Node.toVal]
+  have hw : (Cbor.arr [Cbor.ofInt e.2, .bstr b]).wf = true := by
+    simp only [Cbor.wf, wfList, ofInt_wf e.2 hr, Bool.and_true, Bool.true_and, Bool.and_eq_true, decide_eq_true_eq]
+    exact ⟨by simp, hb⟩
+  have hn : norm (.arr [Cbor.ofInt e.2, .bstr b]) = some (.arr [Cbor.ofInt e.2, .bstr b]) := by
+    simp [norm, normList, ofInt_norm]
+  have hfields : Fields g s [(k1, ca), (k2, cb)] [Node.enumv e.1 e.2, Node.leaf (.bstr b) .hex] := by
+    refine .cons hk1 ?_ (.cons hk2 ?_ .nil)
+    · have : ensure (Node.toVal (.enumv e.1 e.2)) = enc (Cbor.ofInt e.2) := by simp [Node.toVal, ensure_ofInt]
+      rw [this]
+      exact reads_leaf h4 (C03_enum g es e hf hr)
+    · have : ensure (Node.toVal (.leaf (.bstr b) .hex)) = b := by simp [Node.toVal, ensure]
+      rw [this]
+      exact reads_leaf h5 (by simp [leafFrom])
+  have ht := reads_tuple (g := g) (s := s) (c := ct) [(k1, ca), (k2, cb)] [Node.enumv e.1 e.2, Node.leaf (.bstr b) .hex] h3
+    (by rw [hval]; exact hw) (by rw [hval]; exact hn) hfields
+  rw [hval] at ht
+  have hu := reads_union (g := g) (s := s) (c := cu) [] ct post _ _ (by simpa using h2) (by simp) ht
+  exact reads_wrapped h1 hu
+
+/-- the chain of `C03_digest_reads` exists in the extracted schema, from the envelope class down to the `SuitDigest` field of
+the authentication wrapper (every class number is found by unification from `schema.envelope`) -/
+theorem C03_digest_chain :
+    ∃ (t : Nat) (nm : String) (cKv : Cls) (esEnv : List Entry) (emb : Option String) (cAw cAuth c cu ct ca cb : Cls)
+      (rest : List (String × Cls)) (post : List Cls) (k1 k2 : String) (es : List (String × Int)),
+      Generated.schema.ty Generated.schema.envelope = some (.tag t nm cKv) ∧
+      Generated.schema.ty cKv = some (.keyValue esEnv emb) ∧
+      (esEnv.find? (fun e => e.name == "suit-authentication-wrapper")).map (·.cls) = some cAw ∧
+      Generated.schema.ty cAw = some (.cbstr cAuth) ∧
+      Generated.schema.ty cAuth = some (.tupleNamed (("SuitDigest", c) :: rest)) ∧
+      Generated.schema.ty c = some (.cbstr cu) ∧ Generated.schema.ty cu = some (.union (ct :: post)) ∧
+      Generated.schema.ty ct = some (.tupleNamed [(k1, ca), (k2, cb)]) ∧ Generated.schema.ty ca = some (.enum es) ∧
+      Generated.schema.ty cb = some .hex ∧ k1.endsWith "*" = false ∧ k2.endsWith "*" = false ∧
+      es.all (fun e => (es.find? (fun x => x.2 == e.2) == some e) && decide (-(2 ^ 64 : Int) ≤ e.2 ∧ e.2 < 2 ^ 64)) = true ∧
+      0 < es.length := by
+  refine ⟨_, _, _, _, _, _, _, _, _, _, _, _, _, _, _, _, _, rfl, rfl, rfl, rfl, rfl, rfl, rfl, rfl, rfl, rfl, ?_, ?_, ?_, ?_⟩ <;> decide +kernel
+
+/-- **On the current tree:** the digest of the authentication wrapper - each algorithm of the extracted table,
+any value - is read back by `parse` as exactly the node `create` built, hence rendered with the same name and the same hex
+text.  (The table is not empty.) -/
+theorem C03_digest_current :
+    ∃ (c ct : Cls) (k1 k2 : String) (es : List (String × Int)), 0 < es.length ∧
+      ∀ e ∈ es, ∀ (b : Bytes), b.length < 2 ^ 64 →
+        Reads Generated.guards Generated.schema c (enc (.arr [Cbor.ofInt e.2, .bstr b]))
+          (.wrapped (.alt 0 (Generated.schema.name ct) (.tuple [k1, k2] [.enumv e.1 e.2, .leaf (.bstr b) .hex]))) := by
+  obtain ⟨_, _, _, _, _, _, _, c, cu, ct, ca, cb, _, post, k1, k2, es, _, _, _, _, _, h1, h2, h3, h4, h5, hk1, hk2, hall, hlen⟩ :=
+    C03_digest_chain
+  refine ⟨c, ct, k1, k2, es, hlen, fun e he b hb => ?_⟩
+  have := List.all_eq_true.mp hall e he
+  simp only [Bool.and_eq_true, beq_iff_eq, decide_eq_true_eq] at this
+  exact C03_digest_reads Generated.guards Generated.schema c cu ct ca cb post k1 k2 es h1 h2 h3 h4 h5 hk1 hk2 e this.1 this.2 b hb
+
+/-! ### a key/value map: the head of every manifest (version and sequence number), for all values -/
+
+theorem C03_manifest_head_reads (g : Guards) (s : Schema) (c : Cls) (es : List Entry) (emb : Option String) (e1 e2 : Entry)
+    (hty : s.ty c = some (.keyValue es emb))
+    (hf1 : es.find? (fun e => e.id == e1.id) = some e1) (hf2 : es.find? (fun e => e.id == e2.id) = some e2)
+    (hne : e1.id ≠ e2.id) (ht1 : s.ty e1.cls = some .uint) (ht2 : s.ty e2.cls = some .uint)
+    (hr1 : -(2 ^ 64 : Int) ≤ e1.id ∧ e1.id < 2 ^ 64) (hr2 : -(2 ^ 64 : Int) ≤ e2.id ∧ e2.id < 2 ^ 64)
+    (v q : Nat) (hv : v < 2 ^ 64) (hq : q < 2 ^ 64) :
+    Reads g s c (enc (.map [(Cbor.ofInt e1.id, .uint v), (Cbor.ofInt e2.id, .uint q)]))
+      (.kv [(entryKey e1, .leaf (.uint v) .plain), (entryKey e2, .leaf (.uint q) .plain)]) := by
+  have key := reads_kv (g := g) (s := s) (c := c) es emb
+    [(e1, Node.leaf (.uint v) .plain), (e2, Node.leaf (.uint q) .plain)] hty
+  simp only [kvsOf, nodesOf, List.map_cons, List.map_nil, Node.toVal] at key
+  refine key ?_ ?_ ?_ ?_
+  · simp only [Cbor.wf, wfPairs, ofInt_wf _ hr1, ofInt_wf _ hr2, Bool.and_true, Bool.true_and, Bool.and_eq_true,
+      decide_eq_true_eq]
+    exact ⟨by simp, hv, hq⟩
+  · simp [hne]
+  · intro p hp
+    simp only [List.mem_cons, List.not_mem_nil, or_false] at hp
+    rcases hp with rfl | rfl <;> simp [Node.toVal, norm]
+  · intro p hp
+    simp only [List.mem_cons, List.not_mem_nil, or_false] at hp
+    rcases hp with rfl | rfl
+    · exact ⟨hf1, by
+        have : ensure (Node.toVal (.leaf (.uint v) .plain)) = enc (.uint v) := by simp [Node.toVal, ensure]
+        rw [this]; exact reads_leaf ht1 (C03_uint g v hv)⟩
+    · exact ⟨hf2, by
+        have : ensure (Node.toVal (.leaf (.uint q) .plain)) = enc (.uint q) := by simp [Node.toVal, ensure]
+        rw [this]; exact reads_leaf ht2 (C03_uint g q hq)⟩
+
+/-- the manifest class of the extracted schema, reached from the envelope class, with its version and sequence-number
+entries (codes 1 and 2, unsigned integers) -/
+theorem C03_manifest_chain :
+    ∃ (t : Nat) (nm : String) (cKv : Cls) (esEnv : List Entry) (emb : Option String) (cM cMk : Cls) (esM : List Entry)
+      (embM : Option String) (e1 e2 : Entry),
+      Generated.schema.ty Generated.schema.envelope = some (.tag t nm cKv) ∧
+      Generated.schema.ty cKv = some (.keyValue esEnv emb) ∧
+      (esEnv.find? (fun e => e.name == "suit-manifest")).map (·.cls) = some cM ∧
+      Generated.schema.ty cM = some (.cbstr cMk) ∧ Generated.schema.ty cMk = some (.keyValue esM embM) ∧
+      esM.find? (fun e => e.name == "suit-manifest-version") = some e1 ∧
+      esM.find? (fun e => e.name == "suit-manifest-sequence-number") = some e2 ∧
+      esM.find? (fun e => e.id == e1.id) = some e1 ∧ esM.find? (fun e => e.id == e2.id) = some e2 ∧
+      e1.id = 1 ∧ e2.id = 2 ∧ Generated.schema.ty e1.cls = some .uint ∧ Generated.schema.ty e2.cls = some .uint := by
+  refine ⟨_, _, _, _, _, _, _, _, _, _, _, rfl, rfl, rfl, rfl, rfl, rfl, rfl, ?_, ?_, ?_, ?_, ?_, ?_⟩ <;> decide +kernel
+
+/-- **On the current tree:** a manifest consisting of its version and any sequence number below 2^64 is read back by the
+manifest class (byte-string-wrapped key/value map) as exactly the node `create` built -/
+theorem C03_manifest_head_current :
+    ∃ (cM : Cls) (e1 e2 : Entry), e1.name = "suit-manifest-version" ∧ e2.name = "suit-manifest-sequence-number" ∧
+      ∀ (v q : Nat), v < 2 ^ 64 → q < 2 ^ 64 →
+        Reads Generated.guards Generated.schema cM (enc (.map [(Cbor.ofInt e1.id, .uint v), (Cbor.ofInt e2.id, .uint q)]))
+          (.wrapped (.kv [(entryKey e1, .leaf (.uint v) .plain), (entryKey e2, .leaf (.uint q) .plain)])) := by
+  obtain ⟨_, _, _, _, _, cM, cMk, esM, embM, e1, e2, _, _, _, hM, hMk, hn1, hn2, hf1, hf2, hi1, hi2, ht1, ht2⟩ := C03_manifest_chain
+  have hname1 : e1.name = "suit-manifest-version" := by
+    have := List.find?_some hn1; simpa using this
+  have hname2 : e2.name = "suit-manifest-sequence-number" := by
+    have := List.find?_some hn2; simpa using this
+  refine ⟨cM, e1, e2, hname1, hname2, fun v q hv hq => ?_⟩
+  exact reads_wrapped hM (C03_manifest_head_reads Generated.guards Generated.schema cMk esM embM e1 e2 hMk hf1 hf2
+    (by rw [hi1, hi2]; decide) ht1 ht2 (by rw [hi1]; decide) (by rw [hi2]; decide) v q hv hq)
 
 end SuitVerif.Props.C03
